@@ -917,7 +917,8 @@ def dict_method(E, recv, name, lv, args, kw, st, node):
         got = SVal(z3.Select(val, k.t), ty.v, LV("key", lv, k) if lv is not None else None)
         if isinstance(dflt, SVal) and dflt.ty is NONE:
             rty = opt(ty.v)
-            yield st, SVal(z3.If(present, E.coerce(got, rty, st).t, E.coerce(dflt, rty, st).t), rty)
+            # d.get(k) of a present key IS the stored object: keep the place it was read from (write-through for in-place mutation)
+            yield st, SVal(z3.If(present, E.coerce(got, rty, st).t, E.coerce(dflt, rty, st).t), rty, got.origin)
         else:
             d2 = E.coerce(dflt, ty.v, st)
             yield st, SVal(z3.If(present, got.t, d2.t), ty.v)
@@ -1046,6 +1047,15 @@ def str_method(E, recv, name, args, kw, st, node):
     elif name == "encode":
         from .fsmodel import utf8, ensure_codec_axioms
         ensure_codec_axioms(E)
+        codec = args[0] if args else kw.get("encoding")
+        if codec is not None:
+            c = E.coerce(codec, STR, st).t
+            is_utf8 = z3.simplify(z3.Or(c == z3.StringVal("utf-8"), c == z3.StringVal("utf8")))
+            if not z3.is_true(is_utf8):
+                # any other codec: an unrelated uninterpreted function of (text, codec name)
+                other = E.uf("encode_other", [S, S], E.U.Bytes)
+                yield st, SVal(z3.If(is_utf8, utf8(E)(recv.t), other(recv.t, c)), BYTES)
+                return
         yield st, SVal(utf8(E)(recv.t), BYTES)
     elif name == "format":
         raise OutsideSubset("str.format")
